@@ -101,6 +101,7 @@ def base_pipeline(pid, tier, seed, module, body):
     if not okx:
         ctx.broken.append(("translator tools/extract_tables.py", msg))
     out.coverage["table_hashes"] = summary
+    fallback = (summary or {}).get("fallback") or {}
     okm, logm = runner.lake_build(["joinmodel"])
     if not okm:
         ctx.broken.append(("lake build joinmodel (model no longer type-checks against the regenerated tables)", errlines(logm)))
@@ -133,6 +134,10 @@ def base_pipeline(pid, tier, seed, module, body):
         "trusted_base": TRUSTED_BASE,
         "theorems": {n.split(".")[-1]: axioms.get(n, None) for n in names},
     })
+    if ok and okm and fallback:
+        # some table could not be regenerated from the source text (the code was restructured): the last generated table
+        # is kept and has to agree with the running code on the whole table battery — the tie by correspondence
+        table_battery(ctx, fallback)
     if ok and okm:
         body(ctx)
     # ---- no failing input found for something that no longer checks ------------------------------
@@ -370,6 +375,11 @@ def judge_total(ctx, r, must_reject=None):
         return "the emitted tokens are not a syntactically valid Rust expression (syn::parse2::<Expr> rejects them)"
     if must_reject and r.parse == "ok" and r.gen == "ok":
         return "structurally invalid input (%s) was accepted silently" % must_reject
+    if must_reject and r.parse == "ok":
+        # the parser has a diagnostic for each of these; getting past it means the user sees the generator's `unwrap()`
+        # panic (or nothing) instead of the message
+        return ("structurally invalid input (%s) got past the parser's diagnostic; the generator then ended with: %s"
+                % (must_reject, r.gen[:120]))
     return None
 
 
@@ -440,11 +450,31 @@ def body_C03(ctx):
             progs.append(k2.gen_scaffold(ctx.rng, "q%d" % i, kind, profile=prof, fail_rate=(0, 1), block_rate=(1, 2), wrap_rate=(1, 3)))
             i += 1
     run_k2(ctx, progs)
+    # every `~` starts a step: `~` in front of every operator (operand-less ones included) and every wrapper, through the
+    # real parser — the member must come back deferred (the generator's step split is tied to the structure by K1)
+    import roundtrip as R
+    tprogs = R.tilde_progs()
+    treals, tbad = R.run(ctx, tprogs, kinds=G.KINDS)
+    for (p, r, exp) in tbad:
+        want = len(re.findall(r" M \w+ D ", exp))
+        got = len(re.findall(r" M \w+ D ", k1.unspace(r.structure))) if r.parse == "ok" else -1
+        ctx.out.violation({"macro_kind": r.kind, "source": p.render(), "real_parse": r.parse, "deferred_members_written": want,
+                           "deferred_members_parsed": got,
+                           "what": ("a `~` did not start a new step: the operator it stands in front of was parsed as an instant action"
+                                    if 0 <= got < want else "a program with `~` in front of an operator was not parsed as written")},
+                          found_input=True, signature="tilde-lost")
+        break
+    n_k1, tdiffs = k1.compare_gen(treals)
+    ctx.k1_compared += n_k1
+    if tdiffs:
+        ctx.k1_diffs += tdiffs
+        ctx.broken.append(("K1 generator correspondence (`~` in front of every operator)", [d.to_json() for d in tdiffs[:3]]))
     ctx.out.coverage["rule"] = ("sequential and thread-spawning macros over random and enumerated depth profiles, a quarter of the operators in "
                                 "wrapper spelling (`[~]op >>> ..pipe(f) [<<<]`, incl. deferred wrappers and implicit closes); the real execution's "
                                 "global event log (callbacks, block captures, with thread names) must contain no event of step k+1 before "
                                 "the last event of step k, each chain must continue from its own previous value (values are mixed from "
-                                "the branch's own history), and value + per-thread events must equal the reference semantics")
+                                "the branch's own history), and value + per-thread events must equal the reference semantics; "
+                                "`~` in front of every operator and wrapper through the real parser: the member comes back deferred")
 
 
 def body_C08(ctx):
@@ -777,6 +807,9 @@ def body_C09(ctx):
                                   found_input=True, signature="async-shape")
     import k2async
     k2async.body(ctx)
+    # task-spawning kinds on tokio, programs in which nothing fails, 2-3 branches: between two batches of gate openings every
+    # chain must have run exactly as far as the poll-level model says (a pending branch blocks no ready sibling, spawned or not)
+    k2async.body(ctx, kinds=("a1t0s1", "a1t1s1"), n=ctx.n(24, 240), fail_rate=(0, 1), max_branches=3, max_depth=3, handler_rate=(1, 4))
     ctx.out.coverage["rule"] = ("K1 on the four async configurations (every profile ≤3×3, every operator, random programs) with a shape oracle "
                                 "on the real output (single Box::pin(async move{…}), no waker/context/executor constructs); K2-async: "
                                 "instrumented futures with manually opened gates on a deterministic executor with a counting root waker: "
@@ -829,6 +862,15 @@ def body_C16(ctx):
                 ctx.out.violation({"macro_kind": r.kind, "source": r.src, "joiner_applications": got, "expected": expect,
                                    "what": "the custom joiner is not applied exactly once per step with more than one active branch"},
                                   True, "joiner-count")
+            # lazy_branches(true): every branch handed to the joiner is a zero-argument `move ||` closure, in every macro kind
+            if "lazy_branches(true)" in r.src:
+                operands = sum(n for n in (sum(1 for d in depths if d > k) for k in range(max(depths))) if n > 1)
+                closures = len(re.findall(r"i:move p:\| p:\|", k1.unspace(r.out)))
+                if closures < operands:
+                    ctx.out.violation({"macro_kind": r.kind, "source": r.src, "move_closures_in_expansion": closures,
+                                       "operands_handed_to_the_joiner": operands,
+                                       "what": "lazy_branches(true): a branch is handed to the joiner as it is, not as a zero-argument closure"},
+                                      True, "lazy-closures")
     import k2
     k2.run_joiner_programs(ctx)
     ctx.out.coverage["rule"] = ("every subset and permutation of the four options, one duplicate at every position (implementation-side oracle "
@@ -837,22 +879,35 @@ def body_C16(ctx):
                                 "transpose_results(false) and futures_crate_path families against the model; K2: logging joiner macro in compiled programs")
 
 
+def distinct_names_oracle(ctx, reals):
+    """Internal names of different things are different identifiers: the real expansion of a program has as many distinct
+    internal identifiers (`__…`) as the model's expansion of it, whose names are injective in their indices (Props/C17).
+    Fewer distinct names = two different things share a name (e.g. branch 100 named like branch 0)."""
+    todo = [r for r in reals if r.parse == "ok" and r.gen == "ok"]
+    outs = k1.run_driver(["GEN\t%s\t%s\t%s" % (r.id, r.kind, r.structure) for r in todo]) if todo else []
+    for r, o in zip(todo, outs):
+        f = o.split("\t")
+        if len(f) < 3 or f[1] != "ok":
+            continue
+        real = set(w for w in k1.unspace(r.out).split(" ") if w.startswith("i:__"))
+        model = set(w for w in k1.unspace(f[2]).split(" ") if w.startswith("i:__"))
+        ctx.evals += 1
+        if len(real) < len(model):
+            ctx.out.violation({"macro_kind": r.kind, "source": r.src[:3000],
+                               "distinct_internal_names": {"real_expansion": len(real), "expected": len(model)},
+                               "missing": sorted(w[2:] for w in model - real)[:8],
+                               "what": "two different things of one expansion share an internal name (fewer distinct internal "
+                                       "identifiers than things to name)"},
+                              found_input=True, signature="name-clash")
+            return
+
+
 def body_C17(ctx):
     items = [(k, s, "large") for s in G.fam_large() for k in G.KINDS]
     items += [(k, s, "profiles") for s, _ in G.fam_profiles(4, 3)[:: (ctx.n(7, 1))] for k in G.KINDS]
-    ctx.k1(mk_cases(items))
-    # names: the model's rendering (from the regenerated format table) vs the running name constructors
-    path = os.path.join(runner.BUILD, "harness_tables.txt")
-    rows = [l.rstrip("\n").split("\t") for l in open(path) if l.startswith("NAME")]
-    reqs = []
-    for r in rows:
-        reqs.append("NAME\t" + r[1] if r[0] == "NAME" else ("NAMEEW\t%s\t%s\t%s" % (r[1], r[2], r[3]) if r[0] == "NAMEEW" else "NAMEFIXED"))
-    outs = k1.run_driver(reqs)
-    for r, o in zip(rows, outs):
-        ctx.evals += 1
-        if o.split("\t") != r:
-            ctx.broken.append(("name table: model rendering vs construct_*_name of the running code", {"real": r, "model": o}))
-            break
+    reals, _ = ctx.k1(mk_cases(items))
+    distinct_names_oracle(ctx, [r for r in reals if r.family == "large"])
+    name_probes(ctx)
     import k2
     k2.run_nesting_programs(ctx)
     # hoisted-operand names in use: programs in which most operands (of every operator kind, incl. the error combinators and
@@ -893,6 +948,63 @@ def body_C19(ctx):
                                 "spawn/collection identifiers other than the user's own); non-spawning async: no Send/'static/spawn; K2: "
                                 "move-only values, Rc (not Send), shared and mutable borrows of the caller's stack through the non-spawning "
                                 "macros must compile and run; allocation counter around sequential evaluations must stay 0")
+
+
+def name_probes(ctx):
+    """names: the model's rendering (from the format table) vs the running name constructors"""
+    path = os.path.join(runner.BUILD, "harness_tables.txt")
+    rows = [l.rstrip("\n").split("\t") for l in open(path) if l.startswith("NAME")]
+    reqs = []
+    for r in rows:
+        reqs.append("NAME\t" + r[1] if r[0] == "NAME" else ("NAMEEW\t%s\t%s\t%s" % (r[1], r[2], r[3]) if r[0] == "NAMEEW" else "NAMEFIXED"))
+    outs = k1.run_driver(reqs)
+    for r, o in zip(rows, outs):
+        ctx.evals += 1
+        if o.split("\t") != r:
+            ctx.broken.append(("name table: model rendering vs construct_*_name of the running code", {"real": r, "model": o}))
+            break
+
+
+def table_battery(ctx, fallback):
+    """The tables the translator could not regenerate, validated against the running code: determiner probes (every
+    token sequence up to the longest operator over the operator alphabet), every operator / wrapper / option subset,
+    order and duplicate / handler / let family through the real parser and generator vs the model (K1, K1-parse), the
+    name constructors, and — for the macro-kind table — instrumented programs compiled under all twelve macro names."""
+    ctx.out.coverage["translator_fallback"] = fallback
+    ctx.out.notes.append("translator fallback for %s: the text pattern is gone (restructured code); the last generated table was "
+                         "validated against the running code by the table battery" % ", ".join(sorted(fallback)))
+    n_broken = len(ctx.broken)
+    table_probes(ctx)
+    name_probes(ctx)
+    items = [(k, s, "operators") for s in G.fam_operators() for k in ("a0t0s0", "a1t1s1")]
+    items += [(ctx.rng.pick(G.KINDS), s, "pairs") for s in G.fam_pairs()[::3]]
+    items += [(ctx.rng.pick(G.KINDS), s, "wrappers") for s in G.fam_wrappers()]
+    items += [(k, s, "options") for k in ("a0t0s0", "a1t1s0") for s in G.fam_options(k)]
+    items += [(ctx.rng.pick(G.KINDS), s, "handlers") for s in G.fam_handlers()]
+    items += [(ctx.rng.pick(G.KINDS), s, "lets") for s in G.fam_lets()]
+    items += [(ctx.rng.pick(G.KINDS), s, "malformed") for s in G.MALFORMED]
+    items += [(k, src, "invalid") for src, _ in INVALID + dup_option_inputs() for k in ("a1t1s1", "a0t0s0")]
+    cases = mk_cases(items, start=700000)
+    reals = k1.run_real(cases, with_oracle=True)
+    n, diffs = k1.compare_gen(reals)
+    ctx.k1_compared += n
+    if diffs:
+        ctx.broken.append(("table battery: K1 generator correspondence", [d.to_json() for d in diffs[:3]]))
+    np_, pdiffs = k1.compare_parse(reals)
+    if pdiffs:
+        ctx.broken.append(("table battery: K1-parse (parser model vs real parser)", [dict(d.to_json(), model=(d.model_out or "")[:400]) for d in pdiffs[:3]]))
+    ctx.evals += len(cases)
+    if "macroKinds" in fallback:
+        import k2
+        kprogs = []
+        for kind in SYNC_KINDS:
+            for name in k2.NAMES[kind]:
+                for _ in range(4):
+                    kprogs.append(k2.gen_scaffold(ctx.rng, "tk%d" % len(kprogs), kind, name=name, max_branches=3, max_depth=3, fail_rate=(1, 6)))
+        run_k2(ctx, kprogs, crate="k2kinds")
+        import k2async
+        k2async.body(ctx, n=24)
+    ctx.out.coverage["table_battery"] = {"cases": len(cases), "k1_parse_compared": np_, "ok": len(ctx.broken) == n_broken}
 
 
 def table_probes(ctx):
